@@ -301,6 +301,8 @@ func (br *BoundsRules) Check(fns []*ssa.Function, rule string, opt boundsOpts) {
 					br.checkIndex(fc, b, in, x.X, x.Index, rule, opt)
 				case *ssa.Slice:
 					br.checkSlice(fc, b, x, rule, opt)
+				case *ssa.MakeSlice:
+					br.checkMake(fc, b, x, rule, opt)
 				}
 			}
 		}
@@ -562,3 +564,142 @@ func (br *BoundsRules) subGuard(fc *FuncCtx, b *ssa.BasicBlock, ap string, v ssa
 
 // ownOutput: the access path is rooted in the result of the library's own signing step.
 func ownOutput(ap string) bool { return strings.Contains(ap, "SignEnveloped") }
+
+// checkMake: make([]T, n, c) with a computed size panics ("len/cap out of range") when the size is negative: each
+// non-constant size operand is a length, a sum/product/quotient of non-negative values, a conversion of an unsigned
+// value, or is tested against zero on the way.
+func (br *BoundsRules) checkMake(fc *FuncCtx, b *ssa.BasicBlock, x *ssa.MakeSlice, rule string, opt boundsOpts) {
+	p := br.A.P
+	for i, sz := range []ssa.Value{x.Len, x.Cap} {
+		if i == 1 && x.Cap == x.Len {
+			continue
+		}
+		cons := fmt.Sprintf("%s: make size %s", p.FnName(fc.Fn), fc.AP(sz))
+		if nonNegSize(sz, 0) {
+			br.R.OK(rule, cons, p.InstrPos(x), "the size is non-negative by construction")
+			continue
+		}
+		if opt.OnlySchemaDerived && !br.schemaDerived(sz) {
+			continue
+		}
+		// a parameter of an unexported helper: non-negative at every call site
+		if prm, isPrm := sz.(*ssa.Parameter); isPrm && fc.Fn.Object() != nil && !fc.Fn.Object().Exported() {
+			sites := p.CallersOf(fc.Fn)
+			all := len(sites) > 0
+			for _, cs := range sites {
+				idx := -1
+				for k, q := range fc.Fn.Params {
+					if q == prm {
+						idx = k - cs.Shift
+					}
+				}
+				args := cs.Instr.Common().Args
+				if idx < 0 || idx >= len(args) || !nonNegSize(args[idx], 0) {
+					all = false
+				}
+			}
+			if all {
+				br.R.OK(rule, cons, p.InstrPos(x), fmt.Sprintf("non-negative at all %d call sites of the helper", len(sites)))
+				continue
+			}
+		}
+		// a test of the same expression against zero that leaves on the negative side (for a value merged from several
+		// paths: on each path)
+		ok := guardedNonNeg(fc, b, sz)
+		if ph, isPhi := sz.(*ssa.Phi); isPhi && !ok {
+			ok = true
+			for i, e := range ph.Edges {
+				if e == ssa.Value(ph) {
+					continue
+				}
+				if !nonNegSize(e, 0) && !guardedNonNeg(fc, ph.Block().Preds[i], e) {
+					ok = false
+				}
+			}
+		}
+		if ok {
+			br.R.OK(rule, cons, p.InstrPos(x), "a dominating test excludes a negative size")
+			continue
+		}
+		br.R.Bad(rule, cons, p.InstrPos(x), "the size of the slice being made is a signed value that nothing shows to be non-negative: make panics for a negative size")
+	}
+}
+
+func nonNegSize(v ssa.Value, depth int) bool {
+	if depth > 8 {
+		return false
+	}
+	switch x := v.(type) {
+	case *ssa.Const:
+		return x.Value != nil && x.Int64() >= 0
+	case *ssa.Call:
+		if bi, ok := x.Call.Value.(*ssa.Builtin); ok {
+			switch bi.Name() {
+			case "len", "cap", "min", "max":
+				if bi.Name() == "min" || bi.Name() == "max" {
+					for _, a := range x.Call.Args {
+						if !nonNegSize(a, depth+1) {
+							return false
+						}
+					}
+				}
+				return true
+			}
+		}
+		if sc := x.Call.StaticCallee(); sc != nil {
+			switch sc.String() {
+			case "(crypto/cipher.Block).BlockSize", "(crypto/cipher.AEAD).NonceSize", "(crypto/cipher.AEAD).Overhead", "encoding/base64.(*Encoding).DecodedLen", "encoding/base64.(*Encoding).EncodedLen", "(hash.Hash).Size":
+				return true
+			}
+		}
+		if x.Call.IsInvoke() {
+			switch x.Call.Method.Name() {
+			case "BlockSize", "NonceSize", "Overhead", "Size", "KeySize":
+				return true
+			}
+		}
+	case *ssa.BinOp:
+		switch x.Op {
+		case token.ADD, token.MUL, token.QUO, token.REM, token.SHR, token.AND:
+			return nonNegSize(x.X, depth+1) && nonNegSize(x.Y, depth+1)
+		case token.SUB:
+			// n - len%n, n - x%n with n > 0 by the same test: the remainder is smaller than the modulus
+			if rem, ok := x.Y.(*ssa.BinOp); ok && rem.Op == token.REM && rem.Y == x.X && nonNegSize(rem.X, depth+1) {
+				return true
+			}
+		}
+	case *ssa.Convert:
+		if bt, ok := x.X.Type().Underlying().(*types.Basic); ok && bt.Info()&types.IsUnsigned != 0 {
+			return true
+		}
+		return nonNegSize(x.X, depth+1)
+	case *ssa.Phi:
+		for _, e := range x.Edges {
+			if e == v {
+				continue
+			}
+			if !nonNegSize(e, depth+1) {
+				return false
+			}
+		}
+		return true
+	}
+	return false
+}
+
+// guardedNonNeg: the path condition of block b excludes a negative v (v < 0 false, or 0 < v / -1 < v true).
+func guardedNonNeg(fc *FuncCtx, b *ssa.BasicBlock, v ssa.Value) bool {
+	ap := fc.AP(v)
+	B := fc.A.B
+	for _, nm := range []string{"lt(" + ap + ",c:0)", "lt(" + ap + ",c:1)"} {
+		if B.HasVar(nm) && fc.Implied(b, B.Not(B.Var(nm))) {
+			return true
+		}
+	}
+	for _, nm := range []string{"lt(c:-1," + ap + ")", "lt(c:0," + ap + ")"} {
+		if B.HasVar(nm) && fc.Implied(b, B.Var(nm)) {
+			return true
+		}
+	}
+	return false
+}
